@@ -341,6 +341,25 @@ var fragLib = []fragGen{
 			stages: stAny,
 		}
 	},
+	// 32: several UNUSED lets that alias one expression (named-expression tables
+	// keyed by the shared handle)
+	func(c *compCtx, k int) fragInst {
+		return fragInst{
+			body:   fmt.Sprintf("let ua%d = acc * 2.0 + f32(idx);\nlet ub%d = ua%d;\nlet uc%d = ua%d;\nlet ud%d = ua%d;\nlet ue%d = acc;\nlet uf%d = acc;\n", k, k, k, k, k, k, k, k, k),
+			stages: stAny,
+		}
+	},
+	// 33: one sampler paired with several textures AND with an element of a
+	// binding array of textures
+	func(c *compCtx, k int) fragInst {
+		return fragInst{
+			globals: fmt.Sprintf("%s var bt1_%d: texture_2d<f32>;\n%s var bt2_%d: texture_2d<f32>;\n%s var bt3_%d: texture_2d<f32>;\n%s var bsm%d: sampler;\n%s var btarr%d: binding_array<texture_2d<f32>, 4>;\n",
+				c.bind(), k, c.bind(), k, c.bind(), k, c.bind(), k, c.bind(), k),
+			body: fmt.Sprintf("acc += textureSampleLevel(bt1_%d, bsm%d, vec2<f32>(0.5), 0.0).x + textureSampleLevel(bt2_%d, bsm%d, vec2<f32>(acc), 0.0).y + textureSampleLevel(bt3_%d, bsm%d, vec2<f32>(0.25), 0.0).z + textureSampleLevel(btarr%d[1], bsm%d, vec2<f32>(0.75), 0.0).w;\n",
+				k, k, k, k, k, k, k, k),
+			stages: stAny,
+		}
+	},
 }
 
 // vocab: identifiers used as overrides by some programs and as constants or
